@@ -166,6 +166,8 @@ class ExprMixin:
         nm = e.id
         st, v = self.read_local(st, nm)
         if v is not None:
+            if st.ghost.get("$oneshot"):
+                st = self.oneshot_use(st, e)
             yield st, v
             return
         yield st, self.resolve_global(nm, st)
